@@ -9,7 +9,7 @@
    the transcriptions in Model/LatticeOrder.v; the right-hand sides are Spec/LatticeOrderSpec.v. *)
 From Coq Require Import Sorting.Sorted Permutation.
 From FCA Require Import Base.ListSet Base.Order Model.LatticeOrder Spec.Closure Spec.LatticeOrderSpec
-     Lemmas.C03 Lemmas.C03_lattice Lemmas.C03_corr Lemmas.C03_closed Lemmas.C03_chains Lemmas.C03_chains_total Lemmas.C03_lindig Corr.C03 Lemmas.C03_statements.
+     Lemmas.C03 Lemmas.C03_lattice Lemmas.C03_corr Lemmas.C03_closed Lemmas.C03_chains Lemmas.C03_chains_total Lemmas.C03_lindig Lemmas.C03_glb Corr.C03 Lemmas.C03_statements.
 
 (* ---- generic order theory (any decidable partial order on a list; reused by the poset cluster) *)
 
@@ -132,6 +132,20 @@ Theorem C03_join_is_intent_intersection : forall t cs Sq, full_lattice t cs ->
             intent cs k = inter_all (all_attrs t) (map (intent cs) Sq).
 Proof. exact C03_join_is_intent_intersection_proof. Qed.
 Print Assumptions C03_join_is_intent_intersection.
+
+(* after concepts were removed (any duplicate-free list of concepts, complete or not): whenever the
+   listed concepts have a greatest lower / least upper bound of the family, meet / join return it *)
+Theorem C03_meet_is_glb : forall t cs, concept_list t cs -> forall Sq k,
+  Sq <> [] -> (forall s, In s Sq -> s < length cs) -> k < length cs ->
+  is_glb (map fst cs) Sq k = true -> meet_nocache cs Sq = Some k.
+Proof. exact meet_is_glb. Qed.
+Print Assumptions C03_meet_is_glb.
+
+Theorem C03_join_is_lub : forall t cs, concept_list t cs -> forall Sq k,
+  Sq <> [] -> (forall s, In s Sq -> s < length cs) -> k < length cs ->
+  is_lub (map fst cs) Sq k = true -> join_nocache cs Sq = Some k.
+Proof. exact join_is_lub. Qed.
+Print Assumptions C03_join_is_lub.
 
 (* ---- the children_dict constructor path (used by lindig_algorithm / from_context 'Lindig') *)
 
